@@ -7,6 +7,7 @@ import (
 	"os"
 	"regexp"
 	"sort"
+	"strconv"
 	"strings"
 
 	"golang.org/x/tools/go/ssa"
@@ -861,6 +862,7 @@ func runC07(c *Ctx) {
 	c.c07NarrowArith()
 	c.c07ParamTable()
 	c.c07ParsersHistoryFree()
+	c.c07ParamDispatch()
 	R.Require("E3.roundtrip-layout", 24, "")
 	R.Require("E3.parser-reads-written-bytes", 24, "")
 	R.Require("S.codec-helpers", 5, "")
@@ -1476,4 +1478,86 @@ func (c *Ctx) c07ParsersHistoryFree() {
 		c.e2EvaluateObjs(r, recvs[r.Fn])
 	}
 	R.Require("E2.field", 60, "")
+}
+
+// c07ParamDispatch: the parameter table stores each parameter in the field that carries its ID in its name
+// (T0x093… holds parameter 0x0093). In every function of TerminalParamDetails, a store into such a field is reached only
+// under the switch case of that very ID. A case that stores into its neighbour's field loses the parameter (or lets the
+// neighbour overwrite it), and the value is re-encoded under the wrong ID.
+func (c *Ctx) c07ParamDispatch() {
+	R := c.R
+	R.Rules["S.param-dispatch"] = "terminal-parameter ID -> field: every store into a field named T0x<ID>… of TerminalParamDetails is dominated by the true edge of a test `id == <that ID>` (the switch case of that ID): each parameter is kept in its own field"
+	re := regexp.MustCompile(`^T0x([0-9A-Fa-f]{3})`)
+	n := 0
+	var bad []string
+	for _, fn := range c.RepoFuncs("protocol/model") {
+		if fn.Signature.Recv() == nil {
+			continue
+		}
+		if nt, ok := derefNamedType(fn.Signature.Recv().Type()); !ok || nt.Obj().Name() != "TerminalParamDetails" {
+			continue
+		}
+		for _, b := range fn.Blocks {
+			for _, ins := range b.Instrs {
+				st, isSt := ins.(*ssa.Store)
+				if !isSt {
+					continue
+				}
+				fa, isFA := st.Addr.(*ssa.FieldAddr)
+				if !isFA || fa.X != ssa.Value(fn.Params[0]) {
+					continue
+				}
+				_, fname, _ := fieldNameOfAddr(fa)
+				m := re.FindStringSubmatch(fname)
+				if m == nil {
+					continue
+				}
+				want, err := strconv.ParseInt(m[1], 16, 64)
+				if err != nil {
+					continue
+				}
+				// the equality tests on an integer parameter whose true edge dominates the store
+				var ks []int64
+				for _, b2 := range fn.Blocks {
+					iff, isIf := b2.Instrs[len(b2.Instrs)-1].(*ssa.If)
+					if !isIf {
+						continue
+					}
+					cmp, isCmp := iff.Cond.(*ssa.BinOp)
+					if !isCmp || cmp.Op != token.EQL {
+						continue
+					}
+					if _, isP := cmp.X.(*ssa.Parameter); !isP {
+						continue
+					}
+					k, isK := constInt(cmp.Y)
+					if isK && edgeDominates(b2, 0, b) {
+						ks = append(ks, k)
+					}
+				}
+				if len(ks) == 0 {
+					continue // not inside an ID switch (constructor, reset)
+				}
+				n++
+				ok := false
+				for _, k := range ks {
+					if k == want {
+						ok = true
+					}
+				}
+				if !ok {
+					bad = append(bad, fmt.Sprintf("%s stores into %s under the case of ID 0x%03X at %s", shortFn(fn), fname, ks[len(ks)-1], c.P.RelPos(st.Pos())))
+				}
+			}
+		}
+	}
+	st, d := report.Discharged, ""
+	if len(bad) > 0 {
+		st, d = report.Violated, strings.Join(bad, "; ")+": the parameter of that ID is not kept in its own field, so it does not survive Parse followed by Encode"
+	}
+	R.Add("S.param-dispatch", fmt.Sprintf("TerminalParamDetails / %d stores under ID cases", n), "", st, d)
+	R.Notes["param_dispatch_stores"] = n
+	if n < 80 {
+		R.Fatal("S.param-dispatch: only %d stores under ID cases found (the table has about 90 typed parameters)", n)
+	}
 }
